@@ -250,11 +250,68 @@ def make_world():
     return World()
 
 def replay(case):
+    if "ctor" in case:
+        with harness.quiet():
+            return [v for v in leaf_lattice()[0] if v["case"] == case]
     w = World()
     out = []
     for e in case["history"]:
         out = w.apply(tuple(e))
     return out
+
+def leaf_lattice():
+    """every public way of making a leaf x data kind x dtype argument x grad mode, with requires_grad=True:
+    the result may require grad only if its FINAL dtype is floating point, and then it must"""
+    sg = harness.load()
+    out = []
+    f32, f64, i32, i64 = np.float32, np.float64, np.int32, np.int64
+    datas = {"float64-array": np.array([1.5, 2.0]), "float32-array": np.array([1.5, 2.0], dtype=f32), "int64-array": np.array([1, 2]),
+             "int32-array": np.array([1, 2], dtype=i32), "float-list": [1.5, 2.0], "int-list": [1, 2], "python-float": 2.5, "python-int": 3,
+             "numpy-float-scalar": np.float64(2.5), "numpy-int-scalar": np.int64(3)}
+    ctors = {}
+    for dn, d in datas.items():
+        ctors[f"Tensor({dn})"] = (lambda d: (lambda dt: sg.Tensor(d, requires_grad=True, dtype=dt)))(d)
+        if "array" not in dn and "scalar" not in dn:
+            ctors[f"tensor({dn})"] = (lambda d: (lambda dt: sg.tensor(d, requires_grad=True, dtype=dt)))(d)
+    for fn in ("ones", "zeros", "empty", "rand", "randn"):
+        ctors[f"{fn}(2,3)"] = (lambda fn: (lambda dt: getattr(sg, fn)(2, 3, requires_grad=True, dtype=dt)))(fn)
+    ctors["eye(2)"] = lambda dt: sg.eye(2, requires_grad=True, dtype=dt)
+    ctors["arange(4)"] = lambda dt: sg.arange(4, requires_grad=True, dtype=dt)
+    ctors["ones_like"] = lambda dt: sg.ones_like(sg.Tensor(np.zeros(3)), requires_grad=True, dtype=dt)
+    ctors["zeros_like"] = lambda dt: sg.zeros_like(sg.Tensor(np.zeros(3)), requires_grad=True, dtype=dt)
+    ctors["normal"] = lambda dt: sg.normal(0.0, 1.0, 3, requires_grad=True, dtype=dt)
+    viols = []; n = 0
+    for cname, mk in ctors.items():
+        for dt in (None, f32, f64, i32, i64):
+            for mode in ("grad", "no_grad"):
+                n += 1
+                harness.reset_modes(verify=False)
+                case = {"history": [], "ctor": cname, "dtype": None if dt is None else np.dtype(dt).name, "mode": mode}
+                try:
+                    if mode == "no_grad":
+                        with sg.no_grad(): t = mk(dt)
+                    else: t = mk(dt)
+                    raised = None
+                except Exception as e:
+                    t, raised = None, e
+                if t is not None:
+                    fl = t.dtype.kind == "f"
+                    if t.requires_grad and not fl:
+                        viols.append({"kind": "nonfloat-requires-grad", "detail": f"{cname} dtype={case['dtype']} ({mode}): {t.dtype} tensor requires grad", "case": case})
+                    if fl and mode == "grad" and not t.requires_grad:
+                        viols.append({"kind": "float-leaf-lost-requires-grad", "detail": f"{cname} dtype={case['dtype']}: floating tensor created with requires_grad=True does not require grad", "case": case})
+                else:
+                    # refused: legitimate only if the tensor would not have been floating point
+                    try:
+                        probe = None
+                        with sg.no_grad():
+                            probe = mk(dt)
+                    except Exception:
+                        probe = None
+                    if mode == "grad" and probe is not None and probe.dtype.kind == "f":
+                        viols.append({"kind": "float-leaf-refused", "detail": f"{cname} dtype={case['dtype']}: a floating-point tensor was refused requires_grad=True ({type(raised).__name__})", "case": case})
+    harness.reset_modes(verify=False)
+    return viols, n
 
 def run(tier, seed):
     global THOROUGH
@@ -270,6 +327,11 @@ def run(tier, seed):
                    "(leaf f64/f32/i64, tanh, mul, unbind, detach, toggle, retain_grad, backward); states merged on "
                    "model state + observable library state; each transition is a full replay on fresh objects "
                    "compared with the stack-machine model after the last event"}
+    with harness.quiet():
+        lv, ln = leaf_lattice()
+    res.violations.extend(lv)
+    cov["leaf_constructor_cases"] = ln
+    cov["rule"] += f"; plus {ln} leaf-construction cases (every constructor x data kind x dtype argument x grad mode with requires_grad=True)"
     if tier == "thorough":
         audit = explorer.explore(make_world, 5, merge=False)
         merged5 = explorer.explore(make_world, 5)
